@@ -14,7 +14,12 @@ import sys
 import itertools
 import re
 
+import asyncio
+
 import edzed
+import edzed.fsm
+
+from .. import vtime
 
 from ..enc import enc, enc_data
 from ..simrun import Sim
@@ -23,7 +28,11 @@ ID = 'C11'
 RULE = ("hand-written seed circuits (self-loop, 2/3-cycles, diamond, every harmless outcome, early "
         "initialisation with a loop back, malformed event types) + random event graphs over 1..4 blocks "
         "(probe blocks with scripted handlers a/b/need/ping – a quarter of their sends inside try/except that swallows the exception –, Input with/without initdef and allowed set, "
-        "Counter with/without modulo, OutputFunc with a returning/failing function and 0..2 on_success / 0..1 on_error "
+        "Counter with/without modulo, table-driven FSMs with 2..3 states, events e0/e1 with per-state and any-state "
+        "rules and 'no transition' targets, Goto, scripted entry/exit actions (entry actions may send the one "
+        "documented chained event to the FSM itself, two of them, or an endless chain), on_enter/on_exit/on_notrans/"
+        "on_output events with filters (a quarter of the first on_enter/on_exit events straight back to the FSM), "
+        "timed states with zero or positive duration whose expiry is delivered on the virtual loop (`tick`), OutputFunc with a returning/failing function and 0..2 on_success / 0..1 on_error "
         "events sent from inside its handler, a quarter of the first on_success events looping straight back), 0..2 on_output, 0..1 on_every_output and 0..2 explicitly sent "
         "events per block with random destination (self-loops, cycles, diamonds), event type (known, "
         "unknown, EventCond incl. nested and None branches), 0..2 filters; start-up of the circuit, "
@@ -34,8 +43,10 @@ ASSUMPTIONS = [
     "scripted handlers either propagate the exceptions of the events they send or swallow all of them "
     "(try/except Exception: pass around one send); OutputFunc catches only the exceptions of its function",
     "values are ints/bools, so that Counter arithmetic never sees a non-number",
-    "FSM chained transitions (the FSM-internal window, `_fsm_event_active/_next_event`) and Repeat are not "
-    "part of this model; the `_enable_event` mechanism itself is exercised through early initialisation",
+    "FSM: cond_EVENT callbacks, the `duration` data item, persistence and user-defined calc_output are not "
+    "modelled (the output is the state name); the event data item `sdata` is left out; timers fire one at a "
+    "time in the order the event loop delivers them (recorded from the implementation); Repeat is not part of "
+    "this model",
 ]
 EXHAUSTIVE = {'quick': False, 'thorough': False}
 
@@ -43,6 +54,7 @@ LOG = []        # enter/exit log shared by all blocks of the running scenario
 REFUSED = []    # blocks that refused a recursive event, in order
 SWALLOWED = []  # (block, exception kind): a probe handler caught the exception of an event it sent
 EXC_EXITS = []  # exception kinds that left an event handler
+DEEP = []       # handler entries at a nesting depth that no documented window allows
 BUSY_OK = []    # blocks whose event() returned normally although their handler was running (probe depth > 0)
 
 
@@ -60,18 +72,30 @@ class _Traced:
         self._c11_depth = getattr(self, '_c11_depth', 0) + 1
         self._c11_max = max(getattr(self, '_c11_max', 0), self._c11_depth)
         v = data.get('value', edzed.UNDEF)
-        LOG.append(f"+{self.name}:{self._c11_depth}:{'-' if v is edzed.UNDEF else enc(v)}")
+        item = f"+{self.name}:{self._c11_depth}:{'-' if v is edzed.UNDEF else enc(v)}"
+        LOG.append(item)
+        # depth 2 is legal only for an FSM whose (single) running handler is inside its entry action /
+        # timer start, i.e. inside the documented chained-transition window
+        if self._c11_depth > 1 and not (self._c11_depth == 2 and getattr(self, '_c11_window', 0) > 0):
+            DEEP.append(item)
         if self._c11_depth > 3:
             self._c11_depth -= 1
             raise Overflow(self.name)
 
     def event(self, etype, /, **data):
         """observe (not alter) a refusal at the block that raises it, whoever catches it later"""
-        busy = getattr(self, '_c11_depth', 0) > 0
+        depth = getattr(self, '_c11_depth', 0)
+        in_window = depth == 1 and getattr(self, '_c11_window', 0) > 0
         try:
             ret = super().event(etype, **data)
-            if busy:
-                BUSY_OK.append(self.name)
+            if depth > 0:
+                if not in_window:
+                    BUSY_OK.append(self.name)
+                elif ret is True:
+                    # an accepted (parked) transition request: one per window
+                    self._c11_chained += 1
+                    if self._c11_chained > 1:
+                        BUSY_OK.append(self.name + ':second-chained-request')
             return ret
         except edzed.EdzedCircuitError as err:
             if 'Forbidden recursive' in str(err) and not getattr(err, '_c11_seen', False):
@@ -86,13 +110,8 @@ class _Traced:
             EXC_EXITS.append(kind_of(sys.exc_info()[1]))
 
 
-class PB(_Traced, edzed.SBlock):
-    """probe block: what the handlers do is given by scripts"""
-
-    def __init__(self, *args, scripts, extra, **kwargs):
-        self.scripts = scripts
-        self.extra = extra
-        super().__init__(*args, **kwargs)
+class _Scripted:
+    """mix-in: interpreter of the scripts (self.extra = the explicitly sent events)"""
 
     def _run(self, acts):
         for act in acts:
@@ -120,6 +139,16 @@ class PB(_Traced, edzed.SBlock):
             else:
                 raise AssertionError(act)
 
+
+
+class PB(_Traced, _Scripted, edzed.SBlock):
+    """probe block: what the handlers do is given by scripts"""
+
+    def __init__(self, *args, scripts, extra, **kwargs):
+        self.scripts = scripts
+        self.extra = extra
+        super().__init__(*args, **kwargs)
+
     def _handler(self, key, data):
         self._c11_enter(data)
         ok = False
@@ -144,6 +173,61 @@ class PB(_Traced, edzed.SBlock):
 
     def _event_ping(self, **data):
         return self._handler('ping', data)
+
+
+class _FsmProbe(_Traced, _Scripted):
+    """mix-in for the generated FSM classes: enter/exit log around FSM._event, window marker around the
+    entry actions and the start of the timer (both run inside `with self._enable_event`)"""
+
+    _c11_window = 0
+    _c11_chained = 0
+
+    def _event(self, etype, data):
+        self._c11_enter(data)
+        ok = False
+        try:
+            ret = super()._event(etype, data)
+            ok = True
+            return ret
+        finally:
+            self._c11_exit(ok)
+
+    def _c11_in_window(self, func):
+        self._c11_window += 1
+        self._c11_chained = 0
+        try:
+            return func()
+        finally:
+            self._c11_window -= 1
+
+    def _start_timer(self, duration, timed_event):
+        return self._c11_in_window(lambda: super(_FsmProbe, self)._start_timer(duration, timed_event))
+
+    def _timer_expired(self, timed_event):
+        TIMER_HOOK[0](self, lambda: super(_FsmProbe, self)._timer_expired(timed_event))
+
+
+TIMER_HOOK = [None]
+
+
+def make_fsm(i, b, slots, kw):
+    n = b['n']
+    timers = {f's{k}': (t[1], py_etype(t[0])) for k, t in enumerate(b['timed']) if t is not None}
+    states = [f's{k}' for k in range(n) if f's{k}' not in timers]
+    events = [(ev, None if fr is None else [f's{fr}'], None if to is None else f's{to}') for ev, fr, to in b['trans']]
+    cls = type(f'F{i}', (_FsmProbe, edzed.FSM), {'STATES': states, 'TIMERS': timers, 'EVENTS': events})
+    for k in range(n):
+        if b['enter'][k]:
+            kw[f'enter_s{k}'] = (lambda acts: lambda: blk._c11_in_window(lambda: blk._run(acts)))(b['enter'][k])
+        if b['exit'][k]:
+            kw[f'exit_s{k}'] = (lambda acts: lambda: blk._run(acts))(b['exit'][k])
+        if slots.get(f'en{k}'):
+            kw[f'on_enter_s{k}'] = slots[f'en{k}']
+        if slots.get(f'ex{k}'):
+            kw[f'on_exit_s{k}'] = slots[f'ex{k}']
+    blk = cls(f'b{i}', initdef='s0', on_notrans=slots.get('nt', []), **kw)
+    blk.extra = slots['x']
+    return blk
 
 
 def instrument(base):
@@ -222,6 +306,8 @@ def py_etype(et):
         return ''
     if k == 'x':
         return 5
+    if k == 'g':
+        return edzed.fsm.Goto(f's{et[1]}')
     return edzed.EventCond(py_etype(et[1]), py_etype(et[2]))
 
 
@@ -229,6 +315,8 @@ def enc_etype(et):
     k = et[0]
     if k == 'n':
         return 'n:' + et[1]
+    if k == 'g':
+        return f'g{et[1]}'
     if k == 'c':
         return f'c/{enc_etype(et[1])}/{enc_etype(et[2])}'
     return k
@@ -262,6 +350,11 @@ def def_lines(scn):
             initdef = 'u' if b['initdef'] is None else enc(b['initdef'])
             allowed = '-' if b['allowed'] is None else ','.join(enc(v) for v in b['allowed'])
             lines.append(f"dispatch blk {i} input {initdef} {allowed}")
+        elif b['kind'] == 'fsm':
+            tr = ','.join(f"{ev}:{'*' if fr is None else fr}:{'-' if to is None else to}" for ev, fr, to in b['trans']) or '-'
+            tm = '|'.join('-' if t is None else f'{enc_etype(t[0])}@{t[1]}' for t in b['timed'])
+            lines.append(f"dispatch blk {i} fsm {b['n']} {tr} {'|'.join(enc_script(x) for x in b['enter'])} "
+                         f"{'|'.join(enc_script(x) for x in b['exit'])} {tm}")
         elif b['kind'] == 'outfunc':
             f = b['func']
             lines.append(f"dispatch blk {i} outfunc {f if isinstance(f, str) else 'c' + enc(f[1])}")
@@ -278,7 +371,7 @@ def build(scn):
         slots = {'o': [], 'e': [], 'x': [], 's': [], 'r': []}
         for src, slot, dest, et, fl in scn['edges']:
             if src == i:
-                slots[slot].append(edzed.Event(f'b{dest}', py_etype(et), efilter=[py_filter(f) for f in fl]))
+                slots.setdefault(slot, []).append(edzed.Event(f'b{dest}', py_etype(et), efilter=[py_filter(f) for f in fl]))
         kw = {'on_output': slots['o'], 'on_every_output': slots['e']}
         if b['kind'] == 'probe':
             blk = PB(f'b{i}', scripts={'init': b['init'], 'a': b['a'], 'b': b['b'], 'need': b['need'], 'ping': []},
@@ -289,6 +382,8 @@ def build(scn):
             if b['allowed'] is not None:
                 kw['allowed'] = b['allowed']
             blk = TInput(f'b{i}', **kw)
+        elif b['kind'] == 'fsm':
+            blk = make_fsm(i, b, slots, kw)
         elif b['kind'] == 'outfunc':
             blk = TOutputFunc(f'b{i}', func=py_func(b['func']), on_success=slots['s'], on_error=slots['r'], **kw)
         else:
@@ -319,8 +414,18 @@ def kind_of(exc):
 INIT = {0: 'z', -1: 'y', 1: 'p', -2: 'r', 2: 'd'}
 
 
+def fsm_str(b):
+    if not isinstance(b, edzed.FSM):
+        return '-,-'
+    st = b.state
+    timer = b._active_timer
+    return (f"{'-' if st is edzed.UNDEF else st[1:]},{'T' if timer is not None and not timer.cancelled() else '-'}"
+            + ('A' if b._fsm_event_active else '') + ('N' if b._next_event is not None else ''))
+
+
 def state_str(circuit, blocks):
-    return (' '.join(f"{enc(b.output)},{int(b._event_active)},{INIT[b.init_steps_completed]}" for b in blocks)
+    return (' '.join(f"{enc(b.output)},{int(b._event_active)},{INIT[b.init_steps_completed]},{fsm_str(b)}"
+                     for b in blocks)
             + f" err={kind_of(circuit.error)} stk=0")
 
 
@@ -328,7 +433,7 @@ def followups(scn):
     out = []
     for i, b in enumerate(scn['blocks']):
         # harmless events that pass the guard: ping / a call that does not bind / an unknown type
-        out.append(['raw', i, ['n', {'probe': 'ping', 'outfunc': 'zz'}.get(b['kind'], 'put')], {}])
+        out.append(['raw', i, ['n', {'probe': 'ping', 'outfunc': 'zz', 'fsm': 'zz'}.get(b['kind'], 'put')], {}])
     return out
 
 
@@ -343,6 +448,7 @@ def run_impl(scn):
     del BUSY_OK[:]
     del SWALLOWED[:]
     del EXC_EXITS[:]
+    del DEEP[:]
 
     def build_circuit(circuit):
         ctx['blocks'] = build(scn)
@@ -363,44 +469,86 @@ def run_impl(scn):
         del SWALLOWED[:]
         exc_exits = list(EXC_EXITS)
         del EXC_EXITS[:]
-        steps.append({'op': op, 'res': res, 'items': items, 'refused': refused, 'busy_ok': busy_ok, 'swallowed': swallowed, 'exc_exits': exc_exits,
+        deep = list(DEEP)
+        del DEEP[:]
+        steps.append({'deep': deep, 'op': op, 'res': res, 'items': items, 'refused': refused, 'busy_ok': busy_ok, 'swallowed': swallowed, 'exc_exits': exc_exits,
                       'active': [b.name for b in blocks if b._event_active],
                       'error': kind_of(sim.circuit.error),
                       'maxdepth': max((getattr(b, '_c11_max', 0) for b in blocks), default=0)})
 
-    def do_ops(ops, follow):
+    def run_event(line, opinfo, call):
+        try:
+            ret = call()
+            if isinstance(ret, tuple) and ret and ret[0] == 'error':
+                ret = ('error',)        # OutputFunc: ('error', <exception object>)
+            res, exc = 'ret ' + enc(ret), None
+        except (Exception, Overflow) as err:    # pylint: disable=broad-except
+            res, exc = 'exc ' + kind_of(err), err
+        record(line, opinfo, res, exc)
+
+    def timer_hook(blk, fire):
+        # a timer of an FSM fires (called by the event loop): one protocol line per firing, in the real order
+        d = int(blk.name[1:])
+        run_event(f"dispatch tick {d}", {'kind': 'tick', 'd': d, 'follow': False}, fire)
+
+    TIMER_HOOK[0] = timer_hook
+
+    def stop_line():
+        ctx['stopped'] = True
+        lines.append('dispatch stop')
+        trace.append('stopped ' + state_str(sim.circuit, ctx['blocks']))
+
+    async def do_ops(ops, follow, loop):
         blocks = ctx['blocks']
         for op in ops:
-            kind, d, et, data = op
+            kind = op[0]
+            if kind == 'tick':
+                # let the earliest timer fire (virtual time); once the simulation has been aborted, yielding
+                # to the loop lets the simulation task finish: all blocks are stopped, the timers cancelled
+                if loop is None:
+                    continue
+                if sim.circuit.error is not None:
+                    if not ctx.get('stopped'):
+                        while not sim.simtask.done():
+                            await asyncio.sleep(0)
+                        stop_line()
+                    continue
+                whens = [b._active_timer.when() for b in blocks
+                         if isinstance(b, edzed.FSM) and b._active_timer is not None and not b._active_timer.cancelled()]
+                if not whens:
+                    continue
+                await vtime.advance_to(loop, round(min(whens) * 1e6))
+                await vtime.settle(loop)
+                if sim.circuit.error is not None and not ctx.get('stopped'):
+                    while not sim.simtask.done():
+                        await asyncio.sleep(0)
+                    stop_line()
+                continue
+            _, d, et, data = op
             if kind == 'ext':
-                line = f"dispatch ext {d} {et} {enc_data(data)}"
+                run_event(f"dispatch ext {d} {et} {enc_data(data)}", {'kind': kind, 'd': d, 'follow': follow},
+                          lambda: edzed.ExtEvent(blocks[d], et).send(**data))
             else:
-                line = f"dispatch raw {d} {enc_etype(et)} {enc_data(data)}"
-            try:
-                if kind == 'ext':
-                    ret = edzed.ExtEvent(blocks[d], et).send(**data)
-                else:
-                    ret = blocks[d].event(py_etype(et), **data)
-                if isinstance(ret, tuple) and ret and ret[0] == 'error':
-                    ret = ('error',)        # OutputFunc: ('error', <exception object>)
-                res, exc = 'ret ' + enc(ret), None
-            except (Exception, Overflow) as err:    # pylint: disable=broad-except
-                res, exc = 'exc ' + kind_of(err), err
-            record(line, {'kind': kind, 'd': d, 'follow': follow}, res, exc)
+                run_event(f"dispatch raw {d} {enc_etype(et)} {enc_data(data)}", {'kind': kind, 'd': d, 'follow': follow},
+                          lambda: blocks[d].event(py_etype(et), **data))
 
     async def drive(sim, blocks):
         # the start-up went well
         record('dispatch init', {'kind': 'init'}, 'ret n', None)
-        do_ops(scn['ops'], False)
-        do_ops(followups(scn), True)
+        await do_ops(scn['ops'], False, sim.loop)
+        await do_ops(followups(scn), True, sim.loop)
 
     sim.run(build_circuit, drive)
     if sim.init_error is not None:
-        # start-up failed; the simulation task has finished, the blocks still process events
+        # start-up failed; the simulation task has finished (blocks stopped), the blocks still process events
         err = sim.circuit.error
         record('dispatch init', {'kind': 'init'}, 'exc ' + kind_of(err), err)
-        do_ops(scn['ops'], False)
-        do_ops(followups(scn), True)
+        ctx['stopped'] = True
+
+        async def post(_loop):
+            await do_ops(scn['ops'], False, None)
+            await do_ops(followups(scn), True, None)
+        vtime.run(post)
     entered = sum(1 for s in steps for it in s['items'] if it.startswith('+'))
     tags = [f"n={len(scn['blocks'])}", f"init={'ok' if sim.init_error is None else 'failed'}"]
     for s in steps:
@@ -421,7 +569,7 @@ def oracle(scn, res):
     for i, s in enumerate(res['steps']):
         op = s['op']
         # 1. nesting depth per block (measured by the probes) never exceeds 1
-        deep = [it for it in s['items'] if it.startswith('+') and int(it.split(':')[1]) > 1]
+        deep = s['deep']
         if deep:
             out.append({'clause': 'no_nested_handling',
                         'what': f"step {i} {op}: handler entered while the block was handling an event: {deep}"})
@@ -486,6 +634,11 @@ def cnt(mod=None, initdef=0):
     return {'kind': 'counter', 'mod': mod, 'initdef': initdef}
 
 
+def fsm(n, trans, enter=None, exit_=None, timed=None):
+    return {'kind': 'fsm', 'n': n, 'trans': trans, 'timed': timed or [None] * n,
+            'enter': enter or [[] for _ in range(n)], 'exit': exit_ or [[] for _ in range(n)]}
+
+
 def outf(func='v'):
     return {'kind': 'outfunc', 'func': func}
 
@@ -503,6 +656,31 @@ def seeds():
     yield {'blocks': [outf(['c', 3]), outf('f'), cnt()],
            'edges': [[0, 's', 1, N('put'), []], [1, 'r', 2, N('inc'), []], [0, 's', 2, ['c', N('inc'), ['0']], ['v']]],
            'ops': [E(0, 'put', {'value': 0}), E(0, 'put'), E(1, 'put', {'value': 1})]}
+    # FSM: the documented chained transition (entry action of s1 sends e1 to the FSM itself)
+    yield {'blocks': [fsm(2, [['e0', 0, 1], ['e1', 1, 0]], enter=[[], [['e', 0, N('e1')]]])], 'edges': [],
+           'ops': [E(0, 'e0'), E(0, 'e0', {'value': 1}), E(0, 'e1')]}
+    # ... an on_enter event leading back to the FSM is NOT the chained transition: refused
+    yield {'blocks': [fsm(2, [['e0', 0, 1], ['e1', None, 0]]), probe(a=[['s', 0, None]])],
+           'edges': [[0, 'en1', 1, N('a'), []], [1, 'x', 0, N('e1'), []]], 'ops': [E(0, 'e0')]}
+    yield {'blocks': [fsm(2, [['e0', 0, 1], ['e1', None, 0]])], 'edges': [[0, 'en1', 0, N('e1'), ['a']]], 'ops': [E(0, 'e0')]}
+    # ... the initial transition is an event too: on_enter / on_output of the initial state back to the FSM
+    yield {'blocks': [fsm(2, [['e0', None, 1]])], 'edges': [[0, 'en0', 0, N('e0'), []]], 'ops': [E(0, 'e0')]}
+    yield {'blocks': [fsm(2, [['e0', None, 1]]), inp()], 'edges': [[0, 'o', 1, N('put'), []], [1, 'o', 0, N('e0'), []]],
+           'ops': [E(0, 'e0')]}
+    # ... a timed state: the expiry is an event as well (on_exit of the timed state back to the FSM)
+    yield {'blocks': [fsm(2, [['e0', 0, 1], ['e1', None, 0]], timed=[None, [N('e1'), 1]])],
+           'edges': [[0, 'ex1', 0, N('e0'), []]], 'ops': [E(0, 'e0'), ['tick'], E(0, 'e0')]}
+    yield {'blocks': [fsm(2, [['e0', 0, 1], ['e1', None, 0]], timed=[None, [N('e1'), 1]]), cnt()],
+           'edges': [[0, 'ex1', 1, N('inc'), []], [0, 'en0', 1, N('put'), []]], 'ops': [E(0, 'e0'), ['tick'], E(0, 'e0'), ['tick'], ['tick']]}
+    # ... zero delay = chained; two requests in one window; endless chain; no transition; unknown; Goto
+    yield {'blocks': [fsm(3, [['e0', 0, 1], ['e1', 1, 2]], timed=[None, [N('e1'), 0], [['g', 0], 2]])], 'edges': [],
+           'ops': [E(0, 'e0'), ['tick']]}
+    yield {'blocks': [fsm(2, [['e0', 0, 1], ['e1', None, 0]], enter=[[], [['e', 0, N('e1')], ['e', 0, N('e1')]]])], 'edges': [],
+           'ops': [E(0, 'e0'), E(0, 'e0')]}
+    yield {'blocks': [fsm(2, [['e0', None, 0]], enter=[[['e', 0, N('e0')]], []])], 'edges': [], 'ops': [E(0, 'e0')]}
+    yield {'blocks': [fsm(2, [['e0', 0, 1], ['e0', 1, None], ['e1', 0, 0]]), inp()],
+           'edges': [[0, 'nt', 1, N('put'), []], [0, 'nt', 0, N('e0'), []]],
+           'ops': [E(0, 'e1'), E(0, 'e0'), E(0, 'e0'), E(0, 'zz'), R(0, ['g', 0]), R(0, ['g', 1]), R(1, ['g', 0])]}
     # a handler that catches the exceptions of the events it sends: A -> B(try/except) -> A, and a
     # self-loop inside try/except: the refusal must stop the simulation although nobody sees the exception
     yield {'blocks': [probe(a=[['s', 0, None]]), probe(a=[['t', 0, None], ['o', 4]])],
@@ -561,8 +739,11 @@ def seeds():
 VALUES = [0, 1, 2, 3, True, False]
 
 
-def rand_etype(rng, kind, depth=0):
-    names = {'probe': ['a', 'a', 'b', 'b', 'need', 'ping', 'zz'],
+def rand_etype(rng, kind, depth=0, nst=2):
+    if kind == 'fsm' and rng.random() < 0.15:
+        return ['g', rng.randrange(nst)]
+    names = {'fsm': ['e0', 'e0', 'e0', 'e1', 'e1', 'zz'],
+             'probe': ['a', 'a', 'b', 'b', 'need', 'ping', 'zz'],
              'input': ['put', 'put', 'put', 'zz'],
              'counter': ['inc', 'inc', 'dec', 'put', 'reset', 'zz'],
              'outfunc': ['put', 'put', 'put', 'put', 'zz']}[kind]
@@ -576,7 +757,7 @@ def rand_etype(rng, kind, depth=0):
             return ['0']
         if q < 0.40:
             return [rng.choice(['e', 'x'])]
-        return rand_etype(rng, kind, depth + 1)
+        return rand_etype(rng, kind, depth + 1, nst)
     return ['c', branch(), branch()]
 
 
@@ -594,18 +775,23 @@ def rand_circuit(rng):
     otherwise events (and loops) occur already during the initialisation"""
     quiet = rng.random() < 0.6
     n = rng.choice([1, 2, 2, 3, 3, 3, 4])
-    kinds = [rng.choice(['probe', 'probe', 'probe', 'input', 'input', 'counter', 'outfunc', 'outfunc']) for _ in range(n)]
+    kinds = [rng.choice(['probe', 'probe', 'probe', 'input', 'input', 'counter', 'outfunc', 'outfunc', 'fsm', 'fsm', 'fsm'])
+             for _ in range(n)]
+    nst = [rng.choice([2, 2, 3]) for _ in range(n)]     # number of states of the FSMs
     edges, nextra = [], [0] * n
     # a backbone cycle or chain makes loops likely
     shape = rng.random()
     for i in range(n):
         for slot, cnt_ in (('o', rng.choice([0, 1, 1, 2])), ('e', rng.choice([0, 0, 0, 1])),
-                           ('x', rng.choice([0, 1, 2]) if kinds[i] == 'probe' else 0),
+                           ('x', rng.choice([0, 1, 2]) if kinds[i] in ('probe', 'fsm') else 0),
+                           *[(f'en{k}', rng.choice([0, 0, 1, 1, 2])) for k in range(nst[i]) if kinds[i] == 'fsm'],
+                           *[(f'ex{k}', rng.choice([0, 0, 0, 1])) for k in range(nst[i]) if kinds[i] == 'fsm'],
+                           ('nt', rng.choice([0, 0, 1]) if kinds[i] == 'fsm' else 0),
                            ('s', rng.choice([0, 1, 1, 2]) if kinds[i] == 'outfunc' else 0),
                            ('r', rng.choice([0, 1]) if kinds[i] == 'outfunc' else 0)):
             for k in range(cnt_):
-                if slot == 's' and k == 0 and rng.random() < 0.25:
-                    dest = i                    # on_success straight back to the OutputFunc
+                if (slot == 's' or slot[:2] in ('en', 'ex')) and k == 0 and rng.random() < 0.25:
+                    dest = i                    # on_success / on_enter / on_exit straight back to the block
                 elif shape < 0.4 and k == 0:
                     dest = (i + 1) % n
                 else:
@@ -613,7 +799,7 @@ def rand_circuit(rng):
                 fl = rand_filters(rng)
                 if quiet and slot in 'oe':
                     fl.insert(rng.randrange(len(fl) + 1), 'u')
-                edges.append([i, slot, dest, rand_etype(rng, kinds[dest]), fl])
+                edges.append([i, slot, dest, rand_etype(rng, kinds[dest], 0, nst[dest]), fl])
                 if slot == 'x':
                     nextra[i] += 1
     blocks = []
@@ -632,12 +818,47 @@ def rand_circuit(rng):
                         acts.append(['r'])
                     elif r < 0.96:
                         d = rng.randrange(n)
-                        acts.append(['e', d, rand_etype(rng, kinds[d]) if rng.random() < 0.6 else [rng.choice(['e', 'x', '0'])]])
+                        acts.append(['e', d, rand_etype(rng, kinds[d], 0, nst[d]) if rng.random() < 0.6 else [rng.choice(['e', 'x', '0'])]])
                 return acts
             r = rng.random()
             init = [['o', rng.choice(VALUES)]] if r < 0.75 or quiet else (
                 [] if r < 0.82 else [['o', rng.choice(VALUES)]] + script(2))
             blocks.append(probe(init=init, a=script(), b=script(), need=script()))
+        elif k == 'fsm':
+            ns = nst[i]
+            trans = []
+            for ev in ('e0', 'e1'):
+                for fr in list(range(ns)) + [None]:
+                    if rng.random() < (0.6 if ev == 'e0' else 0.4):
+                        trans.append([ev, fr, None if rng.random() < 0.1 else rng.randrange(ns)])
+            if not trans:
+                trans.append(['e0', None, rng.randrange(ns)])
+            evs = sorted({t[0] for t in trans})
+            timed = []
+            for st in range(ns):
+                if rng.random() < 0.3:
+                    tev = ['n', rng.choice(evs)] if rng.random() < 0.7 else ['g', rng.randrange(ns)]
+                    timed.append([tev, rng.choice([0, 1, 1, 2])])
+                else:
+                    timed.append(None)
+
+            def fscript(window):
+                if rng.random() < 0.65:
+                    return []
+                acts = []
+                for _ in range(rng.choice([1, 1, 2])):
+                    r = rng.random()
+                    if r < 0.4 and window:
+                        # the documented chained transition: an event to the FSM itself from the entry action
+                        acts.append(['e', i, ['n', rng.choice(evs)] if rng.random() < 0.8 else ['g', rng.randrange(ns)]])
+                    elif r < 0.85 and nextra[i]:
+                        acts.append(['s' if rng.random() < 0.75 else 't', rng.randrange(nextra[i]),
+                                     rng.choice(VALUES + [None, None])])
+                    elif r < 0.9:
+                        acts.append(['r'])
+                return acts
+            blocks.append({'kind': 'fsm', 'n': ns, 'trans': trans, 'timed': timed,
+                           'enter': [fscript(True) for _ in range(ns)], 'exit': [fscript(False) for _ in range(ns)]})
         elif k == 'outfunc':
             blocks.append(outf(rng.choice(['v', 'v', 'v', 'f', ['c', rng.choice(VALUES)]])))
         elif k == 'input':
@@ -657,6 +878,11 @@ def alphabet(rng, circ):
         if k == 'probe':
             ops += [['ext', i, 'a', {}], ['ext', i, 'b', {'value': rng.choice(VALUES)}],
                     ['ext', i, rng.choice(['need', 'zz']), rng.choice([{}, {'value': 1}])]]
+        elif k == 'fsm':
+            ops += [['ext', i, 'e0', {}], ['ext', i, rng.choice(['e0', 'e1']), {'value': rng.choice(VALUES)}],
+                    ['ext', i, rng.choice(['e1', 'zz']), {}], ['raw', i, ['g', rng.randrange(b['n'])], {}]]
+            if any(t is not None and t[1] > 0 for t in b['timed']):
+                ops += [['tick'], ['tick']]
         elif k == 'outfunc':
             ops += [['ext', i, 'put', {'value': rng.choice(VALUES)}], ['ext', i, 'put', {'value': rng.choice(VALUES)}],
                     ['ext', i, rng.choice(['put', 'zz']), {}]]
